@@ -292,6 +292,58 @@ type effects struct {
 	heap    map[string]bool
 	ghosts  map[string]bool
 	allocs  bool
+	patterns []string             // heap patterns from callee assigns clauses
+	heapExt bool                  // external library calls: non-rqlite heap only
+	targets map[string][]ast.Expr // heap name -> base expressions of the writes (targeted havoc)
+	untgt   map[string]bool       // heap names with a write whose base is not a simple expression
+}
+
+func (ef *effects) target(name string, base ast.Expr) {
+	if ef.targets == nil {
+		ef.targets = map[string][]ast.Expr{}
+	}
+	ef.heap[name] = true
+	ef.targets[name] = append(ef.targets[name], base)
+}
+
+func (ef *effects) untargeted(name string) {
+	if ef.untgt == nil {
+		ef.untgt = map[string]bool{}
+	}
+	ef.heap[name] = true
+	ef.untgt[name] = true
+}
+
+// allocEffects: allocating a value of type t writes only the heap arrays of that type
+// (at fresh references); recorded as untargeted writes of those arrays.
+func (vc *VC) allocEffects(t types.Type, ef *effects) {
+	ef.allocs = true
+	if t == nil {
+		ef.heapAll = true
+		return
+	}
+	t = types.Unalias(t)
+	if p, ok := t.Underlying().(*types.Pointer); ok {
+		t = types.Unalias(p.Elem())
+	}
+	switch u := t.Underlying().(type) {
+	case *types.Struct:
+		vc.objectTypePatterns(t, ef, 0)
+	case *types.Slice:
+		ef.untargeted(elemsName(sortOfType(u.Elem())))
+		if isStructVal(u.Elem()) {
+			vc.objectTypePatterns(u.Elem(), ef, 0)
+		}
+	case *types.Array:
+		ef.untargeted(elemsName(sortOfType(u.Elem())))
+	case *types.Map:
+		ks, vs := sortOfType(u.Key()), sortOfType(u.Elem())
+		ef.untargeted(mapDomName(ks, vs))
+		ef.untargeted(mapValName(ks, vs))
+	case *types.Chan:
+	default:
+		ef.untargeted("Box$" + sortKey(sortOfType(t)))
+	}
 }
 
 func (vc *VC) effectsOf(nodes ...ast.Node) *effects {
@@ -303,7 +355,7 @@ func (vc *VC) effectsOf(nodes ...ast.Node) *effects {
 			if o := info.ObjectOf(l); o != nil {
 				ef.locals[o] = true
 				if vc.isBoxed(o) {
-					ef.heap["Box$"+sortKey(sortOfType(o.Type()))] = true
+					ef.untargeted("Box$" + sortKey(sortOfType(o.Type())))
 				}
 			}
 		case *ast.SelectorExpr:
@@ -315,13 +367,17 @@ func (vc *VC) effectsOf(nodes ...ast.Node) *effects {
 				}
 				if so := structOf(rt); so != nil {
 					f := so.Field(idx[len(idx)-1])
-					ef.heap[vc.fieldName(rt, f)] = true
+					if len(idx) == 1 {
+						ef.target(vc.fieldName(rt, f), l.X)
+					} else {
+						ef.untargeted(vc.fieldName(rt, f))
+					}
 					if isStructVal(f.Type()) {
 						ef.heapAll = true
 					}
 				}
 			} else if o, ok := info.Uses[l.Sel].(*types.Var); ok {
-				ef.heap[vc.globalName(o)] = true
+				ef.untargeted(vc.globalName(o))
 			}
 		case *ast.IndexExpr:
 			xt := info.Types[l.X].Type
@@ -329,10 +385,10 @@ func (vc *VC) effectsOf(nodes ...ast.Node) *effects {
 				switch u := types.Unalias(xt).Underlying().(type) {
 				case *types.Map:
 					ks, vs := sortOfType(u.Key()), sortOfType(u.Elem())
-					ef.heap[mapDomName(ks, vs)] = true
-					ef.heap[mapValName(ks, vs)] = true
+					ef.target(mapDomName(ks, vs), l.X)
+					ef.target(mapValName(ks, vs), l.X)
 				default:
-					ef.heap[elemsName(sortOfType(info.Types[l].Type))] = true
+					ef.untargeted(elemsName(sortOfType(info.Types[l].Type)))
 				}
 			}
 		case *ast.StarExpr:
@@ -340,7 +396,7 @@ func (vc *VC) effectsOf(nodes ...ast.Node) *effects {
 			if isStructVal(t) {
 				ef.heapAll = true
 			} else {
-				ef.heap["Box$"+sortKey(sortOfType(t))] = true
+				ef.untargeted("Box$" + sortKey(sortOfType(t)))
 			}
 		default:
 			ef.heapAll = true
@@ -358,7 +414,7 @@ func (vc *VC) effectsOf(nodes ...ast.Node) *effects {
 				}
 				for _, r := range x.Rhs {
 					if t := info.Types[r].Type; t != nil && isStructVal(t) {
-						ef.heapAll = true // struct copy allocates and writes all fields
+						vc.allocEffects(t, ef) // struct copy allocates and writes all fields
 					}
 				}
 			case *ast.IncDecStmt:
@@ -375,13 +431,12 @@ func (vc *VC) effectsOf(nodes ...ast.Node) *effects {
 					if o := info.Defs[id]; o != nil {
 						ef.locals[o] = true
 						if isStructVal(o.Type()) {
-							ef.heapAll = true
+							vc.allocEffects(o.Type(), ef)
 						}
 					}
 				}
 			case *ast.CompositeLit:
-				ef.heapAll = true
-				ef.allocs = true
+				vc.allocEffects(info.Types[x].Type, ef)
 			case *ast.UnaryExpr:
 				if x.Op == token.ARROW {
 					// channel receive: no heap effect modelled
@@ -485,16 +540,90 @@ func (vc *VC) havocEffects(st *State, ef *effects, at ast.Node) *State {
 	if ef.heapAll {
 		vc.havocHeap(h, "loop")
 	} else {
+		if ef.heapExt {
+			vc.havocExternalHeap(h)
+		}
+		for _, p := range ef.patterns {
+			vc.havocPattern(h, p)
+		}
 		var hs []string
 		for n := range ef.heap {
 			hs = append(hs, n)
 		}
 		sort.Strings(hs)
+		var targeted []string
 		for _, n := range hs {
+			if len(ef.targets[n]) > 0 && !ef.untgt[n] {
+				targeted = append(targeted, n)
+				continue
+			}
 			if srt, ok := vc.universe[n]; ok {
 				h.heap[n] = vc.fresh(n, srt)
 			}
 		}
+		// targeted havoc: every write to the array goes through a base expression whose value
+		// is the same before and inside the loop: only the entries at those bases change.
+		saveSafe := vc.safe
+		vc.safe = false
+		evalIn := func(s *State, e ast.Expr) Term { return vc.eval(s.clone(), e) }
+		bad := map[string]bool{}
+		for _, n := range targeted {
+			if _, ok := vc.universe[n]; !ok {
+				bad[n] = true
+			}
+			for _, be := range ef.targets[n] {
+				if hasEffectfulCall(vc, be) {
+					bad[n] = true
+				}
+			}
+		}
+		for {
+			h2 := h.clone()
+			changed := false
+			for _, n := range targeted {
+				srt := vc.universe[n]
+				if bad[n] {
+					if srt != "" {
+						h2.heap[n] = vc.fresh(n, srt)
+					}
+					continue
+				}
+				_, inner, _ := arrParts(srt)
+				cur := h2.heap[n]
+				seen := map[string]bool{}
+				for _, be := range ef.targets[n] {
+					b := evalIn(st, be)
+					if b.Sort != SInt {
+						bad[n] = true
+						changed = true
+						break
+					}
+					if seen[b.S] {
+						continue
+					}
+					seen[b.S] = true
+					cur = Store(cur, b, vc.fresh(n+"$at", inner))
+				}
+				h2.heap[n] = vc.nameTerm(n, cur)
+			}
+			for _, n := range targeted {
+				if bad[n] {
+					continue
+				}
+				for _, be := range ef.targets[n] {
+					if evalIn(st, be).S != evalIn(h2, be).S {
+						bad[n] = true
+						changed = true
+						break
+					}
+				}
+			}
+			if !changed {
+				h = h2
+				break
+			}
+		}
+		vc.safe = saveSafe
 	}
 	vc.havocGhosts(h, ef.ghosts)
 	// ghost locals modified by anchored updates inside the fragment
